@@ -6,7 +6,7 @@
 From Coq Require Import PrimFloat FloatOps ZArith List Bool String.
 From Coq Require SpecFloat.
 Import ListNotations.
-Require Import PyBase Funcs EvalIdx.
+Require Import PyBase Funcs FuncsConv EvalIdx.
 Open Scope Z_scope.
 
 (* equality on IEEE values, all NaNs identified, +0 and -0 distinguished *)
@@ -65,6 +65,14 @@ Definition check_h {A} (sub : A -> A -> A) (logf : A -> A) (eqb : A -> A -> bool
 Definition check_hF (tc : list (float * float) * hcase float) : bool :=
   check_h PrimFloat.sub (log_tab (fst tc)) feqb_bits (snd tc).
 Definition check_hZ (c : hcase Z) : bool := check_h Z.sub (fun z => z) Z.eqb c.
+
+(* ---- int64 arrays with an arbitrary Python fill value: the cast made explicit (FuncsConv.v) ---- *)
+Record ccase := mkCC {
+  c_f : fname; c_rank : nat; c_x : list Z; c_p : Z; c_fill : pyfill;
+  c_out : outcome (list Z); c_same : bool; c_after : list Z }.
+Definition check_hC (c : ccase) : bool :=
+  let o := observe_c Z pyfill Z.sub (fun z => z) conv_int64 (c_f c) (c_rank c) (c_x c) (c_p c) (c_fill c) in
+  oeqb (leqb Z.eqb) (o_res Z o) (c_out c) && Bool.eqb (o_same Z o) (c_same c) && leqb Z.eqb (o_input_after Z o) (c_after c).
 
 (* ---- text cases (cross-check of the extraction) ---- *)
 Record xcase := mkX { x_span : span_model; x_direct : bool; x_expr : string; x_out : outcome string }.
